@@ -6,12 +6,28 @@ Import ListNotations.
 From Lime Require Import Base.Res Hs.Types Hs.Server Hs.Monitor Corr.HsServer Corr.HsChecks Hs.Builder Corr.Builder.
 (* besides the scripted handshakes against a Server configured directly: ServerBuilders and the Servers they
    build (Corr/Builder.v) *)
-Inductive case := KScript (c : scase) | KB (b : bcase).
-Definition check (c : case) : bool := match c with KScript s => c10_check s | KB b => check_c10 b end.
+(* what a real WebSocket listener hands out: its configuration has a TLS part or not; a plain ws:// client got through
+   or not, and what the accepted transport then said its encryption was; the same for a wss:// client *)
+Open Scope string_scope.
+Inductive wsl := KWsListener (tls_config : bool) (plain_ok : bool) (plain_enc : string) (tls_ok : bool) (tls_enc : string).
+Inductive case := KScript (c : scase) | KB (b : bcase) | KWsL (w : wsl).
+(* the encryption a transport reports is the one its connection really has: a client that connected without TLS is
+   never served by a transport that says "tls" (a TLS-only server would then take it for encrypted), and vice versa *)
+Definition wsl_ok (w : wsl) : bool :=
+  match w with
+  | KWsListener _ pok penc tok tenc =>
+      (if pok then String.eqb penc "none" else true) && (if tok then String.eqb tenc "tls" else true)
+  end.
+Definition check (c : case) : bool := match c with KScript s => c10_check s | KB b => check_c10 b | KWsL w => wsl_ok w end.
 Definition agrees (c : case) : bool :=
   match c with
   | KScript c => list_eqb pair_nat_str_eqb (c10_proj (k_obs c)) (c10_proj (model_obs c))
   | KB b => agrees_c10 b
+  | KWsL (KWsListener cfg pok penc tok tenc) =>
+      (* Hs/Types.v: a WebSocket transport's encryption is fixed by how it was accepted (initial_enc (TWs tls)); a
+         listener with a TLS part serves TLS only, one without serves plain connections only *)
+      (if pok then negb cfg && String.eqb penc (initial_enc (TWs false)) else true) &&
+      (if tok then cfg && String.eqb tenc (initial_enc (TWs true)) else true)
   end.
 Definition mismatches (cs : list case) : list nat := bad_indices agrees cs.
 Definition violations (cs : list case) : list nat := bad_indices check cs.
